@@ -3,5 +3,6 @@ EXTENDS ClientImpl
 OpsCall2  == [o1 |-> [kind |-> "call", specs |-> <<FALSE>>], o2 |-> [kind |-> "call", specs |-> <<FALSE>>]]
 OpsBatch  == [o1 |-> [kind |-> "call", specs |-> <<FALSE>>], o2 |-> [kind |-> "batch", specs |-> <<FALSE, TRUE, FALSE>>]]
 OpsMixed  == [o1 |-> [kind |-> "call", specs |-> <<FALSE>>], o2 |-> [kind |-> "notify", specs |-> <<TRUE>>], o3 |-> [kind |-> "batch", specs |-> <<TRUE, FALSE>>]]
+OpsThree  == [o1 |-> [kind |-> "call", specs |-> <<FALSE>>], o2 |-> [kind |-> "batch", specs |-> <<FALSE, FALSE>>], o3 |-> [kind |-> "call", specs |-> <<FALSE>>]]
 OpsOne    == [o1 |-> [kind |-> "batch", specs |-> <<FALSE, FALSE>>]]
 ================================================================================
